@@ -216,10 +216,13 @@ def predictor_runs(nruns, seed):
             full = lambda ind: DistanceToAverage(data)(ind)  # noqa
             popsize = 16
         hof = HallOfFame(4)
-        isl = FitnessPredictorIsland(ea, gen, popsize, hall_of_fame=hof, predictor_population_size=4,
+        via_setter = (r % 3 == 2)        # the hall of fame may also be attached after construction
+        isl = FitnessPredictorIsland(ea, gen, popsize, hall_of_fame=(None if via_setter else hof), predictor_population_size=4,
                                      trainer_population_size=4, predictor_size_ratio=ratio,
                                      predictor_computation_ratio=0.3, trainer_update_frequency=tuf,
                                      predictor_update_frequency=puf)
+        if via_setter:
+            isl.hall_of_fame = hof
         ngen = rng.randint(4, 9)
         for g in range(ngen):
             isl.evolve(1)
